@@ -494,3 +494,21 @@ PROPS['C03'] = {
         "elements created by an operation (generate, replacing map, clone) are identified by reading the new container; their creation order is decided under C08, not here",
     ],
 }
+
+# engine sources that are this property's own client code (a type/trait error there, while the crate itself builds, is a violation)
+PROPS['C02']['sources'] = ['e_views/src/main.rs']
+PROPS['C10']['sources'] = ['e_views/src/c10.rs']
+PROPS['C11']['sources'] = ['e_views/src/c11.rs']
+PROPS['C03']['sources'] = ['e_own/src/gen.rs', 'e_own/src/main.rs']
+PROPS['C04']['sources'] = ['e_fault/src/c04.rs']
+PROPS['C05']['sources'] = ['e_fault/src/c05.rs']
+PROPS['C06']['sources'] = ['e_iter/src/main.rs']
+PROPS['C07']['sources'] = ['e_ops/src/c07.rs']
+PROPS['C08']['sources'] = ['e_ops/src/c08.rs']
+PROPS['C09']['sources'] = ['e_seq/src/c09.rs']
+PROPS['C13']['sources'] = ['e_misc/src/c13.rs']
+PROPS['C17']['sources'] = ['e_misc/src/c17.rs']
+PROPS['C19']['sources'] = ['e_misc/src/c19.rs']
+PROPS['C14']['sources'] = ['e_hex/src/main.rs']
+PROPS['C15']['sources'] = ['e_alloc/src/main.rs']
+PROPS['C16']['sources'] = ['e_alloc/src/main.rs']
